@@ -71,11 +71,10 @@ GroupDef(gn) ==
                                      !.wrong = {"p", "tbl", "tc", "t", "body", "text"}, !.attrdev = {"none"}, !.textcls = {"plain", "comment"},
                                      !.muts = {"none", "trunc", "truncmid", "dropend", "dupstart", "dupend", "swapend", "tworoots", "strict", "empty", "missing", "deep", "wide"},
                                      !.deeps = {2}, !.wides = {3}, !.pkparts = {"styles"}, !.pkbreaks = {"empty"}, !.zips = {"ok", "nonzip"}, !.battery = "short"]
-    [] gn = "mc-t"     -> [Def EXCEPT !.ctxs = {"root", "doc", "body", "bsdt", "p", "r", "t", "tbl", "tr", "tc", "tcp", "sectPr", "inline", "pic"}, !.names = NamesMini,
-                                     !.wrong = WrongMini \cup {"document", "tr"}, !.textcls = {"plain", "comment", "cdata"}, !.maxnodes = 2, !.maxodd = 2,
+    [] gn = "mc-t"     -> [Def EXCEPT !.ctxs = {"root", "doc", "body", "p", "r", "tc", "sectPr", "pic"}, !.names = NamesMini, !.attrdev = {"none", "huge"},
+                                     !.wrong = WrongMini \cup {"document", "tr"}, !.textcls = {"plain", "comment", "cdata"}, !.maxnodes = 2,
                                      !.muts = {"none", "trunc", "truncmid", "dropend", "dupstart", "dupend", "swapend", "tworoots", "strict", "empty", "missing", "deep", "wide"},
-                                     !.deeps = {2, 3}, !.wides = {2, 3}, !.pkparts = {"styles", "ct"}, !.pkbreaks = {"empty", "missing"}, !.zips = {"ok", "nonzip", "cutzip"},
-                                     !.entries = {"mem", "file"}, !.battery = "short"]
+                                     !.deeps = {2, 3}, !.wides = {2, 3}, !.pkparts = {"styles"}, !.pkbreaks = {"empty"}, !.zips = {"ok", "nonzip"}, !.battery = "short"]
 
 G == GroupDef(grp)
 Ctxs == G.ctxs          Names == G.names        WrongNames == G.wrong    AttrDev == G.attrdev   TextCls == G.textcls
